@@ -82,6 +82,16 @@ class C08(Prop):
             pre.args["jv"] = jt
         elif op == "print":
             pre.args["tree"] = tree(jv)
+            if c % 5 == 4:
+                # printable oddities: a string reference to nothing and a key-less member print as ""
+                holder = lib.cJSON_CreateObject()
+                lib.cJSON_AddItemToObject(holder, b"padding", lib.cJSON_CreateString(b"x" * (a % 300)))
+                lib.cJSON_AddItemToObject(holder, b"nothing", lib.cJSON_CreateStringReference(None))
+                lib.cJSON_AddItemToArray(holder, lib.cJSON_CreateNumber(1.0))
+                lib.cJSON_AddItemToObject(holder, b"tree", pre.args["tree"])
+                pre.roots.remove(pre.args["tree"])
+                pre.roots.append(holder)
+                pre.args["tree"] = holder
         elif op in ("create", "bulk"):
             if op == "create" and a % 12 in (9, 10, 11):
                 pre.args["target"] = tree(jv)
@@ -95,6 +105,10 @@ class C08(Prop):
         elif op in ("add_ref_array", "add_ref_object"):
             pre.args["cont"] = tree(as_array(jv) if op == "add_ref_array" else as_object(jv))
             pre.args["target"] = tree(jv2)
+            # the referenced item may be a member in the middle of another tree (with following siblings)
+            kids = lib.children(pre.args["target"])
+            if kids and c % 2 == 0:
+                pre.args["target"] = kids[(c // 2) % len(kids)]
         elif op == "duplicate":
             pre.args["tree"] = tree(jv)
             if c % 3 == 0:
@@ -135,6 +149,7 @@ class C08(Prop):
             pre.args["node"] = lib.cJSON_GetArrayItem(pre.args["tree"], 0)
         pre.texts = [lib.take_text(lib.cJSON_PrintUnformatted(r)) for r in pre.roots]
         pre.flags = [lib.shim_type(r) for r in pre.roots]
+        pre.walk = [lib.walk(r, 1, 1)[0] for r in pre.roots]
         return pre
 
     def call(self, lib, case, pre):
@@ -330,9 +345,9 @@ class C08(Prop):
                             if lib.shim_type(r) != ty:
                                 raise Violation("%s: the type/ownership flags of a pre-existing item changed from 0x%x to 0x%x although the call failed" % (
                                     where, ty, lib.shim_type(r)), key="flags-modified:" + op)
-                        for r, t in zip(pre.roots, pre.texts):
+                        for r, t, fl0 in zip(pre.roots, pre.texts, pre.walk):
                             fl, _, _ = lib.walk(r, 1, 1)
-                            if fl:
+                            if fl != fl0:
                                 raise Violation("%s: a pre-existing tree has structural defects %s after the failed call" % (where, flag_names(fl)),
                                                 key="damaged:" + op)
                             now = lib.take_text(lib.cJSON_PrintUnformatted(r))
